@@ -47,6 +47,7 @@ pub fn install_panic_hook() {
         } else {
             "<non-string panic payload>".into()
         };
+        RAISED.with(|c| c.set(c.get() + 1));
         let quiet = QUIET.with(|q| q.get());
         if quiet {
             LAST_PANIC.with(|p| *p.borrow_mut() = Some((loc, msg)));
@@ -63,13 +64,42 @@ pub struct PanicInfo {
     pub msg: String,
 }
 
-/// Runs `f`, turning a panic into a value. The panic is silent.
+thread_local! {
+    /// panics raised on this thread (counted by the hook) / panics caught by `guard` on this thread
+    static RAISED: std::cell::Cell<u64> = const { std::cell::Cell::new(0) };
+    static CAUGHT: std::cell::Cell<u64> = const { std::cell::Cell::new(0) };
+}
+
+fn short_loc(loc: String) -> String {
+    match loc.find("src/") {
+        Some(i) if loc.contains("/repo/") || !loc.starts_with('/') => loc[i..].to_string(),
+        _ => {
+            let comps: Vec<&str> = loc.split('/').collect();
+            comps[comps.len().saturating_sub(4)..].join("/")
+        }
+    }
+}
+
+/// Runs `f`, turning a panic into a value. The panic is silent. A panic that was raised while `f` ran and caught by
+/// someone other than a `guard` -- i.e. swallowed inside the library with its own `catch_unwind` -- is reported as
+/// a panic too: the call did panic, and in a `panic = "abort"` build that is the end of the process.
 pub fn guard<T>(f: impl FnOnce() -> T) -> Result<T, PanicInfo> {
     let prev = QUIET.with(|q| q.replace(true));
     LAST_PANIC.with(|p| *p.borrow_mut() = None);
+    let (raised0, caught0) = (RAISED.with(|c| c.get()), CAUGHT.with(|c| c.get()));
     let r = panic::catch_unwind(panic::AssertUnwindSafe(f));
     QUIET.with(|q| q.set(prev));
+    if r.is_err() {
+        CAUGHT.with(|c| c.set(c.get() + 1));
+    }
+    let swallowed = (RAISED.with(|c| c.get()) - raised0).saturating_sub(CAUGHT.with(|c| c.get()) - caught0);
     match r {
+        Ok(_) if swallowed > 0 => {
+            // accounted for here: enclosing guards must not report them again
+            CAUGHT.with(|c| c.set(c.get() + swallowed));
+            let (loc, msg) = LAST_PANIC.with(|p| p.borrow_mut().take()).unwrap_or(("?".into(), "?".into()));
+            Err(PanicInfo { loc: short_loc(loc), msg: format!("{msg} [raised and caught inside the library: {swallowed} panic(s) swallowed by the call]") })
+        }
         Ok(v) => Ok(v),
         Err(_) => {
             let (loc, msg) = LAST_PANIC
@@ -211,6 +241,11 @@ pub trait Scenario: Sync + Send + 'static {
     fn name(&self) -> &'static str;
     fn level(&self) -> &'static str;
     fn tag(&self) -> u64;
+    /// Whether some blocks of runs are thousands of runs long (see `LONG_BLOCK`); not for scenarios whose runs are
+    /// child processes.
+    fn long_blocks(&self) -> bool {
+        true
+    }
     fn runs(&self, tier: &str) -> u64;
     fn gen(&self, seed: u64, run: u64) -> Self::Case;
     fn exec(&self, case: &Self::Case, stats: &mut Stats) -> RunOut<Self::Case>;
@@ -349,6 +384,36 @@ impl Opts {
 /// does not reproduce from its case alone is reported with the block prefix that led up to it (`history` in the
 /// replay file), minimised, and replays by executing that history on one thread.
 pub const BLOCK: u64 = 32;
+/// ... except that the first `LONG_BLOCK` runs of every `SUPER_BLOCK` run indices form ONE block: a thread that lives
+/// through thousands of runs (hundreds of thousands of library calls), for state that takes that long to build up
+/// (a counter that wraps at 65,536 calls, a leak of one level per failed parse that bites at 512).
+pub const SUPER_BLOCK: u64 = 65_536;
+pub const LONG_BLOCK: u64 = 8_192;
+
+/// Block id -> the run indices [lo, hi) it holds. A pure function of the id (and of whether the scenario has long blocks).
+pub fn block_range(id: u64, long: bool) -> (u64, u64) {
+    if !long {
+        return (id * BLOCK, (id + 1) * BLOCK);
+    }
+    let per = 1 + (SUPER_BLOCK - LONG_BLOCK) / BLOCK;
+    let (sup, j) = (id / per, id % per);
+    if j == 0 {
+        (sup * SUPER_BLOCK, sup * SUPER_BLOCK + LONG_BLOCK)
+    } else {
+        let lo = sup * SUPER_BLOCK + LONG_BLOCK + (j - 1) * BLOCK;
+        (lo, lo + BLOCK)
+    }
+}
+
+/// The block a run index belongs to.
+pub fn block_of(run: u64, long: bool) -> u64 {
+    if !long {
+        return run / BLOCK;
+    }
+    let per = 1 + (SUPER_BLOCK - LONG_BLOCK) / BLOCK;
+    let (sup, off) = (run / SUPER_BLOCK, run % SUPER_BLOCK);
+    sup * per + if off < LONG_BLOCK { 0 } else { 1 + (off - LONG_BLOCK) / BLOCK }
+}
 
 /// Runs `f` on a thread of its own (256 MiB of stack) and returns its result: a fresh set of thread-locals.
 pub fn isolated<R: Send>(f: impl FnOnce() -> R + Send) -> R {
@@ -394,8 +459,9 @@ fn history_with_class<S: Scenario>(s: &S, cases: &[S::Case], class: &str) -> Opt
 fn minimise_history<S: Scenario>(s: &S, mut cases: Vec<S::Case>, class: &str) -> (Vec<S::Case>, u64) {
     let mut steps = 0;
     let mut budget = 300u32;
+    let t_dd = Instant::now();
     let mut chunk = (cases.len().saturating_sub(1) / 2).max(1);
-    while cases.len() > 1 && budget > 0 {
+    while cases.len() > 1 && budget > 0 && t_dd.elapsed().as_secs() < 150 {
         let mut progressed = false;
         let mut i = 0;
         while i + 1 < cases.len() && budget > 0 {
@@ -663,7 +729,8 @@ pub fn run_inner<S: Scenario>(s: S, o: &Opts) -> i32 {
         s.name(), s.id(), o.tier, o.seed, o.from, end, o.threads
     );
     let s = Arc::new(s);
-    let next = Arc::new(AtomicU64::new(o.from / BLOCK));
+    let long = s.long_blocks();
+    let next = Arc::new(AtomicU64::new(block_of(o.from, long)));
     let shared = Arc::new(Shared {
         seen: Mutex::new(BTreeMap::new()),
         reports: Mutex::new(vec![]),
@@ -733,10 +800,11 @@ pub fn run_inner<S: Scenario>(s: S, o: &Opts) -> i32 {
                 HEARTBEAT.with(|h| *h.borrow_mut() = Some((slots.clone(), w, t0)));
                 loop {
                     let blk = next.fetch_add(1, Ordering::SeqCst);
-                    if blk * BLOCK >= end {
+                    let (lo, hi) = block_range(blk, long);
+                    if lo >= end {
                         break;
                     }
-                    let (lo, hi) = ((blk * BLOCK).max(o.from), ((blk + 1) * BLOCK).min(end));
+                    let (lo, hi) = (lo.max(o.from), hi.min(end));
                     let (s, o, known, shared, slots, stats, digests) = (&s, &o, &known, &shared, &slots, &mut stats, &mut digests);
                     isolated(move || {
                     HEARTBEAT.with(|h| *h.borrow_mut() = Some((slots.clone(), w, t0)));
